@@ -52,6 +52,32 @@ def gen(rng, shard, nshards, n):
                 lines.append(T + "verify %s %s %s" % (pk.hex(), sig.hex(), bytes(hv2).hex())); exp.append("OK " + ("T" if ok2 else "F"))
                 cases.append(Case(lines, exp, ["%s:%s" % (cname, c) for c in cl] + sorted(cl), "honest"))
                 continue
+            if kind == "forged" and rng.randrange(6) == 0:
+                # x(R) in [n, p): honest signing reaches this with probability 2^-128, but a verifier must still apply
+                # "x(R) mod n == r". Construct it backwards: pick R with x = n + t on the curve, r = t, any s and h,
+                # and derive the public key Q = (s*R - h*G)/r (no private key is needed to test verification).
+                t0 = rng.randrange(1, 1 << rng.choice([4, 16, 64, 120]))
+                while True:
+                    x = N + t0
+                    if x < C.p:
+                        Rp = C.lift_x(x, rng.randrange(2))
+                        if Rp is not None:
+                            break
+                    t0 += 1
+                r = x - N
+                s = rng.randrange(1, N)
+                h = rng.randrange(N)
+                Qx = C.mul(pow(r, -1, N), C.sub(C.mul(s, Rp), C.mulgen(h)))
+                if Qx is None or C.norm(Qx) is None:
+                    continue
+                Qx = C.norm(Qx)
+                pkx = C.encode_compressed(Qx) if rng.randrange(2) else C.encode_uncompressed(Qx)
+                hv = be(h, 32)
+                sig = be(r, 32) + be(s, 32)
+                ok = W.ecdsa_verify(C, Qx, sig, hv)
+                cases.append(case1(T + "verify %s %s %s" % (pkx.hex(), sig.hex(), hv.hex()), "OK " + ("T" if ok else "F"),
+                                   [cname + ":x(R)>=n", "x(R)>=n", cname + ":" + ("accept" if ok else "reject")], "x(R) >= n"))
+                continue
             # forged-hash construction: h = s*k - r*d gives a valid signature for any chosen s and k
             k = rng.randrange(1, N)
             R = C.mulgen(k)
@@ -139,8 +165,7 @@ def main(argv):
     rep.rule = ("honest signatures (hash lengths 0..70, extra-randomness lengths 0/1/32/100) compared byte-for-byte with the reference nonce "
                 "derivation and verified; valid signatures with chosen s and boundary values manufactured by the forged-hash construction "
                 "h = s*k - r*d; the infinity outcome h + r*d = 0; invalid variants (r,s in {0,n,n+1,2^256-1}, r+1, r+n, odd / empty / "
-                "non-zero-padded / zero-padded long / short forms, bit flips); private-key decoding and from_seed. Not reachable: x(R) in [n,p) "
-                "(density 2^-128). distinct_nontrivial = distinct requests in a class")
+                "non-zero-padded / zero-padded long / short forms, bit flips); private-key decoding and from_seed. x(R) in [n,p) (unreachable by honest signing) is constructed backwards from R with a derived public key. distinct_nontrivial = distinct requests in a class")
     rep.assumptions = ["ref_weier (RFC 6979 A.2.5 vectors, repository KATs)"]
     try:
         if a.tier == "quick":
@@ -156,7 +181,7 @@ def main(argv):
         for c in ("p256", "secp256k1"):
             req += [c + ":honest", c + ":s-boundary", c + ":infinity-outcome", c + ":r-out-of-range", c + ":s-out-of-range", c + ":long-form-zero-padded",
                     c + ":odd-length", c + ":nonzero-padding", c + ":empty", c + ":accept", c + ":reject", c + ":hashlen=0", c + ":hashlen=33",
-                    c + ":extra=some", c + ":short-hash", c + ":from_seed", c + ":skdec:reject"]
+                    c + ":extra=some", c + ":short-hash", c + ":from_seed", c + ":skdec:reject", c + ":x(R)>=n"]
         rep.require(*req)
     except Inconclusive as e:
         rep.incon.append(str(e))
